@@ -95,7 +95,7 @@ theorem engineL_fuel_suffices (ft : Bool) (toks : List Tok) (hd : ∀ t ∈ toks
     (h : engineL Gen.C17Grammar.mediaList Gen.C17Grammar.mediaQueryPartof ft toks = .unsupported) :
     ∃ t ∈ toks, Outside t := by
   rw [engineL_eq_parseL ft toks hd] at h
-  exact parseL_unsupported false ft toks {} hd h
+  exact parseL_unsupported true ft toks {} hd h
 
 
 theorem parseQ_unsupported : ∀ (ts : List Tok) (st : QSt), (∀ t ∈ ts, Dom t) →
